@@ -279,3 +279,20 @@ MANIFEST_TEXT["C13"]["level_text"] += " A second stage enumerates every op seque
 MANIFEST_TEXT["C14"]["level_text"] += " A second stage enumerates every op sequence of length 3 (quick) / 5 (thorough, ~5.2 M sequences) over an 15-17 letter alphabet on 3 endpoints for 6 (recovery, delay) configurations, ending each in the constructed quiescent state."
 MANIFEST_TEXT["C12"]["level_text"] += " Gate scenarios hold the receiver right before cond.Wait while the context is cancelled (lost wake-up) and block the underlying stream's first SendMsg while a receiver waits."
 MANIFEST_TEXT["C16"]["level_text"] += " Rejected dial-failure updates are followed by a valid update that names the rolled-back endpoints; a directed scenario removes the target of a pending delayed switch."
+
+MANIFEST_TEXT["C01"]["level_text"] += " Every other such history also has a callback goroutine completing 3-10 transparent connection refreshes (take-overs) meanwhile; results are recorded as logical channels."
+MANIFEST_TEXT["C02"]["level_text"] += " The balanced-fill scenario places concurrent unkeyed picks from 2-15 goroutines on one picker without completions: the final counts must be the water-filling of the initial counts."
+MANIFEST_TEXT["C03"]["level_text"] += " The slow-factory scenario lets NewSubConn take 30 ms while 2-4 saturated picks on different pickers run concurrently (pool may not exceed maxSize); 3% of the sequential histories use a watermark of 101-150 and fill one channel up to it."
+MANIFEST_TEXT["C07"]["level_text"] += " A concurrent stage lets 2-11 calls per channel end with the client-side deadline error on different goroutines at the same time (window passed, balancer mutex kept busy): exactly one replacement per channel. Refresh chains of up to 70 steps reach the saturated region of the window arithmetic (model window exact up to k=63)."
+MANIFEST_TEXT["C09"]["level_text"] += " A quarter of the histories / a third of the stress scenarios use pools of 5-12 channels; 12% start with the cursor a few tickets below 2^31; BIND methods with an empty key locator take part."
+MANIFEST_TEXT["C20"]["level_text"] += " A concurrent stage delivers a resolver update while a slow connection factory (30 ms) is creating the replacement of a refresh: the replacement must carry the new list when it takes over."
+MANIFEST_TEXT["C13"]["level_text"] += " A third stage (real clock, millisecond timers, one reporter goroutine per endpoint, readers, list re-ordering) checks that every value read from Current() is a list member. Lists with a repeated entry are generated too (membership and totality only)."
+MANIFEST_TEXT["C14"]["level_text"] += " A third stage (real clock, recovery 0.3-2 ms, delay 0-1.7 ms) runs one reporter goroutine per endpoint aiming 'available' reports at the expiry of the recovery timer of the preceding 'unavailable' report; after the inputs stop Current() must reach the highest-priority endpoint whose last report says available within 5 s."
+MANIFEST_TEXT["C12"]["level_text"] += " Failing streamers return a typed-nil stream next to their error in every other run; a SendMsg after creation and cancellation must reach the underlying stream; every creation attempt must show the picker the message of the SendMsg in progress."
+MANIFEST_TEXT["C15"]["level_text"] += " One walk operation changes an endpoint's connectivity inside the failing dial of an update (while UpdateMultiEndpoints is in progress): routing must follow after the rejection."
+MANIFEST_TEXT["C16"]["level_text"] += " Half of the enumerated invalid updates also drop a MultiEndpoint; a default naming an existing MultiEndpoint that the same update removes must be rejected."
+MANIFEST_TEXT["C17"]["level_text"] += " One configuration in twelve uses values at the edge of uint32 for maxSize / watermark; GCPConfig() must stay the construction-time configuration after updates carrying none or another one."
+MANIFEST_TEXT["C19"]["level_text"] += " The same message object is marshalled again after a field was added; every fourth case uses a memoising inner codec whose retained buffer has spare capacity."
+for _p in MANIFEST_TEXT:
+    if _p in ("C01", "C02", "C03", "C04", "C05", "C06", "C07", "C08", "C09", "C10", "C12", "C15", "C16", "C17", "C20"):
+        MANIFEST_TEXT[_p]["level_text"] += " Every other batch runs with gRPC's verbose logging enabled (GRPC_GO_LOG_VERBOSITY_LEVEL=99, output discarded) so that the library's log statements are executed under the monitors."
